@@ -786,6 +786,17 @@ fn mode_one(args: &Args) {
                 config::LIT_DEFS.with(|d| d.borrow_mut().clear());
                 let _ = std::fs::remove_dir_all(&dir);
             }
+            "interrupted-post" => {
+                // post all constraints but the last, a solve interrupted at poll --stop, post the last
+                // constraint, solve: the answers are judged against the accumulated model
+                let k = m.cons.len().saturating_sub(1);
+                let initial = Model { vars: m.vars.clone(), cons: vec![] };
+                let mut ops: Vec<Op> = m.cons[..k].iter().cloned().map(Op::Post).collect();
+                ops.push(Op::SatisfyInterrupted(args.kv.get("stop").map(|s| s.parse().unwrap()).unwrap_or(1)));
+                ops.extend(m.cons[k..].iter().cloned().map(Op::Post));
+                ops.push(Op::Satisfy);
+                scen_history(&initial, &ops, &setup, out)
+            }
             "assume" => {
                 let atoms = Toks::new(args.kv.get("assume").expect("--assume")).atoms();
                 scen_assume(&m, &setup, &[(atoms, true)], out)
